@@ -107,6 +107,8 @@ fn main() {
                     std::fs::copy(r, ops).ok();
                 }
                 phys::replay(ops, imp)
+            } else if args.iter().any(|a| a == "--huge-handles") {
+                phys::huge_handles(ops)
             } else if let Some(dir) = arg(&args, "--huge") {
                 phys::huge_v(dir, ops, imp, args.iter().any(|a| a == "--v4"))
             } else {
